@@ -83,6 +83,79 @@ pub fn f2_table(compat: &[u8; 16], default_format: u8, entries: &[F2Entry], decl
     b
 }
 
+/// format 1 patch map with a correctly sized applied-entries bitmap and glyph map
+pub struct F1Spec {
+    pub max_entry_index: u16,
+    pub max_glyph_map_entry_index: u16,
+    pub glyph_count: u32,
+    pub first_mapped_glyph: u16,
+    /// entry index per glyph from `first_mapped_glyph` on (u8 entries iff max_entry_index < 256)
+    pub entries: Vec<u16>,
+    pub applied: Vec<u16>,
+    /// (tag, first_new_entry_index, [(first_entry, last_entry)])
+    pub features: Vec<([u8; 4], u16, Vec<(u16, u16)>)>,
+    pub patch_format: u8,
+}
+
+pub fn f1_table(compat: &[u8; 16], f: &F1Spec) -> Vec<u8> {
+    let wide = f.max_entry_index >= 256;
+    let mut b: Vec<u8> = vec![1, 0, 0, 0, 0];
+    b.extend_from_slice(compat);
+    b.extend_from_slice(&f.max_entry_index.to_be_bytes());
+    b.extend_from_slice(&f.max_glyph_map_entry_index.to_be_bytes());
+    b.extend_from_slice(&f.glyph_count.to_be_bytes()[1..]);
+    let gm_pos = b.len();
+    b.extend_from_slice(&[0; 8]);
+    let mut bitmap = vec![0u8; (f.max_entry_index as usize + 8) / 8];
+    for a in &f.applied {
+        if let Some(x) = bitmap.get_mut(*a as usize / 8) {
+            *x |= 1 << (a % 8);
+        }
+    }
+    b.extend_from_slice(&bitmap);
+    let uri = b"p/{id}";
+    b.extend_from_slice(&(uri.len() as u16).to_be_bytes());
+    b.extend_from_slice(uri);
+    b.push(f.patch_format);
+    let gm = b.len() as u32;
+    b[gm_pos..gm_pos + 4].copy_from_slice(&gm.to_be_bytes());
+    b.extend_from_slice(&f.first_mapped_glyph.to_be_bytes());
+    for e in &f.entries {
+        if wide {
+            b.extend_from_slice(&e.to_be_bytes());
+        } else {
+            b.push(*e as u8);
+        }
+    }
+    if !f.features.is_empty() {
+        let fm = b.len() as u32;
+        b[gm_pos + 4..gm_pos + 8].copy_from_slice(&fm.to_be_bytes());
+        b.extend_from_slice(&(f.features.len() as u16).to_be_bytes());
+        for (tag, first_new, maps) in &f.features {
+            b.extend_from_slice(tag);
+            if wide {
+                b.extend_from_slice(&first_new.to_be_bytes());
+                b.extend_from_slice(&(maps.len() as u16).to_be_bytes());
+            } else {
+                b.push(*first_new as u8);
+                b.push(maps.len() as u8);
+            }
+        }
+        for (_, _, maps) in &f.features {
+            for (a, z) in maps {
+                if wide {
+                    b.extend_from_slice(&a.to_be_bytes());
+                    b.extend_from_slice(&z.to_be_bytes());
+                } else {
+                    b.push(*a as u8);
+                    b.push(*z as u8);
+                }
+            }
+        }
+    }
+    b
+}
+
 /// a small patchable TrueType base: `n` glyphs of 2..6 bytes each, long or short loca
 pub fn base_tables(n: u16, long_loca: bool) -> Vec<(Tag, Vec<u8>)> {
     let mut head = vec![0u8; 54];
@@ -109,7 +182,12 @@ pub fn base_tables(n: u16, long_loca: bool) -> Vec<(Tag, Vec<u8>)> {
         }
     }
     put(&mut loca, glyf.len());
-    vec![(Tag::new(b"head"), head), (Tag::new(b"maxp"), maxp), (Tag::new(b"loca"), loca), (Tag::new(b"glyf"), glyf)]
+    // cmap: one format 12 group U+0020.. -> glyph 0.. (a few code points beyond the last glyph)
+    let mut cmap: Vec<u8> = vec![0, 0, 0, 1, 0, 3, 0, 10, 0, 0, 0, 12, 0, 12, 0, 0, 0, 0, 0, 28, 0, 0, 0, 0, 0, 0, 0, 1];
+    cmap.extend_from_slice(&0x20u32.to_be_bytes());
+    cmap.extend_from_slice(&(0x20 + n as u32 + 2).to_be_bytes());
+    cmap.extend_from_slice(&0u32.to_be_bytes());
+    vec![(Tag::new(b"head"), head), (Tag::new(b"maxp"), maxp), (Tag::new(b"loca"), loca), (Tag::new(b"glyf"), glyf), (Tag::new(b"cmap"), cmap)]
 }
 
 pub fn assemble(ift: &[u8], iftx: Option<&[u8]>, base: &[(Tag, Vec<u8>)]) -> Vec<u8> {
@@ -258,6 +336,32 @@ fn canned_patches(font: &FontRef) -> Vec<(&'static str, Vec<u8>)> {
 /// patch map intersection, uri expansion, patch selection and application on one font
 pub fn exercise_ift_font(ex: &mut Explorer, label: &dyn Fn() -> String, font: &FontRef) {
     let patches = canned_patches(font);
+    // the hand-written read-fonts accessors of the patch map tables
+    ex.op(label, "ift.accessors", &mut || {
+        use read_fonts::tables::ift::Ift;
+        for t in [font.ift(), font.iftx()].into_iter().flatten() {
+            match t {
+                Ift::Format1(m) => {
+                    let mut sink = m.entry_count() as u64;
+                    let _ = m.uri_template_as_string();
+                    for e in [0u16, 1, 7, 8, 255, 256, m.max_entry_index(), m.max_entry_index().wrapping_add(1), 0xFFFE, 0xFFFF] {
+                        sink += m.is_entry_applied(e) as u64;
+                    }
+                    sink += m.gid_to_entry_iter().take(70_000).map(|(g, e)| g.to_u32() as u64 + e as u64).sum::<u64>();
+                    if let Some(Ok(fm)) = m.feature_map() {
+                        for mx in [0u16, 255, 256, m.max_entry_index(), 0xFFFF] {
+                            sink += fm.entry_records_size(mx).unwrap_or(0) as u64;
+                        }
+                    }
+                    std::hint::black_box(sink);
+                }
+                Ift::Format2(m) => {
+                    let _ = m.uri_template_as_string();
+                    let _ = m.entries().map(|e| e.entry_data().len());
+                }
+            }
+        }
+    });
     for (dn, def) in subset_defs() {
         let mut infos: Vec<(PatchFormat, PatchInfo)> = vec![];
         ex.op(label, &format!("ift.intersect def={dn}"), &mut || {
@@ -367,6 +471,8 @@ pub fn base_fonts_for_fields() -> Vec<(String, Vec<u8>)> {
     ];
     let mut out = vec![];
     for (i, (n, m)) in maps.iter().enumerate() {
+        // format 1 maps must declare the font's glyph count (u24 at offset 25)
+        let base = if m[0] == 1 { base_tables(u32::from_be_bytes([0, m[25], m[26], m[27]]) as u16, true) } else { base.clone() };
         // every second font carries the map as IFTX next to a format 2 IFT
         let bytes = if i % 2 == 0 { assemble(m, None, &base) } else { assemble(&maps[3].1, Some(m), &base) };
         out.push((format!("ift-testdata:{n}"), bytes));
@@ -440,6 +546,35 @@ pub fn run(cfg: &Config, ex: &mut Explorer) {
             }
         }
     }
+
+    // ---- format 1: entry counts / glyph counts / first mapped glyph / feature records at extremes, with
+    // consistently sized bitmaps and glyph maps (so that the header validation passes)
+    let mut n_f1 = 0u64;
+    for max_entry in [0u16, 1, 254, 255, 256, 300, 0x7FFF, 0x8000, 0xFFFE, 0xFFFF] {
+        for (glyphs, first) in [(1u32, 0u16), (1, 1), (7, 2), (7, 7), (7, 0xFFFF), (300, 0), (0xFFFF, 0), (0xFFFF, 0xFFFE), (0xFFFF, 0xFFFF)] {
+            if !thorough && glyphs == 0xFFFF && ![0u16, 255, 256, 0xFFFF].contains(&max_entry) {
+                continue;
+            }
+            let n_entries = (glyphs as i64 - first as i64).max(0) as usize;
+            let entries: Vec<u16> = (0..n_entries).map(|i| [0u16, 1, max_entry, max_entry.wrapping_add(1), max_entry / 2, 0xFFFF][i % 6]).collect();
+            for with_features in [false, true] {
+                let features = if with_features {
+                    vec![(*b"liga", max_entry, vec![(0u16, max_entry), (max_entry, 0)]), (*b"dlig", max_entry.wrapping_sub(1), vec![(1, 1)]), (*b"smcp", 0, vec![]), (*b"zzzz", 0xFFFF, vec![(0xFFFF, 0xFFFF), (0, 0xFFFF)])]
+                } else {
+                    vec![]
+                };
+                let spec = F1Spec { max_entry_index: max_entry, max_glyph_map_entry_index: if with_features { max_entry / 2 } else { max_entry }, glyph_count: glyphs, first_mapped_glyph: first, entries: entries.clone(), applied: vec![0, 1, max_entry], features, patch_format: if with_features { 2 } else { 3 } };
+                let table = f1_table(&COMPAT, &spec);
+                let bytes = assemble(&table, None, &base_tables(glyphs as u16, true));
+                n_f1 += 1;
+                let label = || format!("ift=format1 max_entry={max_entry} glyph_count={glyphs} first_mapped={first} features={with_features} table={}", if table.len() <= 300 { hex(&table) } else { format!("{}..({} bytes)", hex(&table[..80]), table.len()) });
+                if let Ok(font) = FontRef::new(&bytes) {
+                    exercise_ift_font(ex, &label, &font);
+                }
+            }
+        }
+    }
+    ex.notes.push(format!("IFT: {n_f1} format-1 fonts with consistent bitmaps / glyph maps"));
 
     // ---- patches applied to a base whose map has a glyph keyed and a table keyed entry
     let map = f2_table(
